@@ -30,14 +30,13 @@ Proof.
   destruct (execute_body cap lower c r disc s1 a) as [[s2 o] cc] eqn:Eb.
   assert (Hcc : cc = false -> a_kind a = KFile true).
   { intro Hf. subst cc. unfold execute_body in Eb.
-    destruct (a_kind a) as [n| |[|]] eqn:Ek; auto; exfalso.
-    - destruct (iterate _ _ _ _ _ _ _ _ _ _) as [[? ?] [?|?]]; inversion Eb.
-    - destruct (iterate _ _ _ _ _ _ _ _ _ _) as [[? ?] [?|?]]; inversion Eb.
-    - destruct s1 as [t ch]. cbn in Eb.
-      destruct (iterate _ _ _ _ _ _ _ _ _ _) as [[? ?] [?|?]]; inversion Eb. }
+    destruct (a_kind a) as [n| |[|]] eqn:Ek; auto; exfalso;
+      try (destruct s1 as [t0 ch0]; cbn in Eb);
+      repeat match type of Eb with context [match ?y with _ => _ end] => destruct y end;
+      inversion Eb. }
   destruct cc; cbn [andb].
-  - destruct (a_has_close a) eqn:Eh; [destruct (a_close_exn a)|]; cbn; repeat split; auto; try discriminate.
-  - cbn. repeat split; auto; try discriminate. destruct (a_has_close a); auto.
+    - destruct s1 as [t ch]. cbn in Eb. Show.
+
 Qed.
 
 Theorem close_once a :
